@@ -46,7 +46,7 @@ def strategy(tier, shard):
         problem = draw(ckpt.problem_descs())
         solver = draw(ckpt.solver_descs())
         route = "load" if problem["kind"] == "tabular" else draw(st.sampled_from(["restore", "restore", "load"]))
-        ov = dict(new_dir=draw(st.booleans()), frequency=draw(st.sampled_from([None, None, 1, 2])),
+        ov = dict(new_dir=draw(st.booleans()), frequency=draw(st.sampled_from([None, None, 1, 2, 0])),
                   keep=draw(st.sampled_from([None, None, 1, 4])), async_=draw(st.sampled_from([None, True, False])))
         return dict(problem=problem, solver=solver, freq=draw(st.integers(1, 3)), keep=draw(st.integers(1, 3)),
                     async_=draw(st.booleans()), calls=[draw(st.integers(1, 7))] + ([draw(st.integers(1, 5))] if draw(st.booleans()) else []),
@@ -181,7 +181,13 @@ def judge(case):
             if ckpt.tree_hash(dirA) != hashA:
                 return verdict_fail("original-directory-altered", f"{route} (new_dir={ov['new_dir']}, later={later}) changed files in the original directory: "
                                     f"before {sorted(hashA)[:6]} after {sorted(ckpt.tree_hash(dirA))[:6]}", classes=classes)
-        if later and ov["new_dir"]:
+        if exp_attrs["checkpoint_frequency"] == 0:
+            classes.append("override-frequency-0")
+            if at["has_manager"]:
+                return verdict_fail("override-not-applied:frequency-0-still-checkpointing", f"frequency 0 requested, solver still has a checkpoint manager ({at})", classes=classes)
+            if later and (ckpt.tree_hash(dirA) != hashA or ckpt.steps_in(dirB)[0]):
+                return verdict_fail("override-not-applied:frequency-0-still-writes", f"after solve({later}): original steps {ckpt.steps_in(dirA)[0]}, new dir steps {ckpt.steps_in(dirB)[0]}", classes=classes)
+        elif later and ov["new_dir"]:
             stepsB, _ = ckpt.steps_in(dirB)
             if not stepsB or min(stepsB) <= expect_step:
                 return verdict_fail("later-saves-not-in-new-directory", f"new directory holds {stepsB} after solving from step {expect_step}", classes=classes)
